@@ -160,9 +160,38 @@ class Ctx:
             else:
                 e = self.enum_of(c)
                 if e is None:
-                    raise Unsupported('unknown type %r (canonical %r)' % (t, c))
+                    al = self.resolve_alias(c)
+                    if al is None:
+                        raise Unsupported('unknown type %r (canonical %r)' % (t, c))
+                    b2, s2, r2 = self.ctype(al)
+                    if s2 or r2:
+                        raise Unsupported('alias %s to array/reference type' % c)
+                    return b2 + ptr, suffix, isref
                 base = e
         return base + ptr, suffix, isref
+
+    def resolve_alias(self, c):
+        """`Rec::Alias` -> the aliased type string (member typedefs of instantiated records)"""
+        depth = 0
+        cut = None
+        for i in range(len(c) - 1, 0, -1):
+            ch = c[i]
+            if ch == '>':
+                depth += 1
+            elif ch == '<':
+                depth -= 1
+            elif ch == ':' and c[i - 1] == ':' and depth == 0:
+                cut = i - 1
+                break
+        if cut is None:
+            return None
+        r = self.ast.rec_by_qname.get(c[:cut])
+        if r is None:
+            return None
+        a = r.aliases.get(c[cut + 2:])
+        if a is None:
+            return None
+        return type_str(a['type'])
 
     def ctype_decl(self, tnode, name):
         base, suffix, isref = self.ctype(tnode)
